@@ -3,8 +3,8 @@ CONSTANTS
   NMain = 1
   NTd = 2
   NAborters = 2
-  PostLoopAbortCheck = FALSE
-  ResetInAbort = TRUE
+  PostLoopAbortCheck = TRUE
+  ResetInAbort = FALSE
 SPECIFICATION Spec
 INVARIANT AtMostOneBody
 INVARIANT NoStartAfterAbortReturned
